@@ -585,3 +585,59 @@ def simple_stream(f, n_pictures=1, fragments=0, first_picture_number=0, slice_kw
         units += [u.copy() for u in extra]
     units.append(end_of_sequence())
     return units
+
+
+# ----------------------------------------------------------------------------
+# Independent bit reader (used by oracles that inspect serialised output)
+# ----------------------------------------------------------------------------
+class BitR(object):
+    def __init__(self, data, byte_offset=0):
+        self.bits = bytes_to_bits(data)
+        self.pos = 8 * byte_offset
+
+    def bit(self):
+        b = self.bits[self.pos]
+        self.pos += 1
+        return 1 if b == "1" else 0
+
+    def nbits(self, n):
+        v = int(self.bits[self.pos : self.pos + n], 2) if n else 0
+        self.pos += n
+        return v
+
+    def uint(self):
+        v = 1
+        while self.bit() == 0:
+            v = (v << 1) | self.bit()
+        return v - 1
+
+    def align(self):
+        self.pos += -self.pos % 8
+
+    @property
+    def byte_pos(self):
+        assert self.pos % 8 == 0
+        return self.pos // 8
+
+
+def read_transform_parameters(r, major_version, profile):
+    """Parse transform_parameters (12.4) from a BitR; returns a dict."""
+    tp = {"wavelet_index": r.uint(), "dwt_depth": r.uint(), "wavelet_index_ho": None, "dwt_depth_ho": 0}
+    if major_version >= 3:
+        if r.bit():
+            tp["wavelet_index_ho"] = r.uint()
+        if r.bit():
+            tp["dwt_depth_ho"] = r.uint()
+    tp["slices_x"] = r.uint()
+    tp["slices_y"] = r.uint()
+    if profile == PROFILE_LD:
+        tp["slice_bytes_numerator"] = r.uint()
+        tp["slice_bytes_denominator"] = r.uint()
+    else:
+        tp["slice_prefix_bytes"] = r.uint()
+        tp["slice_size_scaler"] = r.uint()
+    tp["custom_quant_matrix"] = r.bit()
+    if tp["custom_quant_matrix"]:
+        n = 1 + tp["dwt_depth_ho"] + 3 * tp["dwt_depth"]
+        tp["quant_matrix"] = [r.uint() for _ in range(n)]
+    return tp
